@@ -65,6 +65,11 @@ enum Op6 {
     Reset,
     /// `set_conflict_resolution_strategy(k-th strategy)`: orders the agenda, decides nothing about WHAT fires
     SetStrategy(usize),
+    /// the same `update(fact, data)` 1001 times in a row (a sensor that keeps re-sending its reading): one state for the
+    /// statement, more than a thousand queued activations for the engine -- more than one `fire_all` pops (its loop
+    /// guard is 1000), so the two calls that follow are left to drain the queue: they must fire nothing unsound, and
+    /// owe nothing yet; from the third on everything is owed again
+    Burst(usize, Data),
 }
 
 const STRATEGIES: [&str; 7] = ["Salience", "LEX", "MEA", "Depth", "Breadth", "Simplicity", "Complexity"];
@@ -279,6 +284,20 @@ fn gen_case(s: &mut Src, exh: u32) -> Case {
                 d.twin ^= bit;
             }
         }
+    }
+    // drawn after everything else: one history in six is preceded by a burst scenario on a fact of its own --
+    // insert; the same update 1001 times; another update; fire_all; fire_all; another update; fire_all
+    if s.chance(1, 6) {
+        for o in ops.iter_mut() {
+            match o {
+                Op6::Update(i, _) | Op6::Retract(i) | Op6::Burst(i, _) => *i += 1,
+                _ => {}
+            }
+        }
+        let (d1, d2, d3) = (gen_data(s), gen_data(s), gen_data(s));
+        let ty = s.below(ntypes);
+        let prefix = vec![Op6::Insert(ty, d1.clone()), Op6::Burst(0, d1), Op6::Update(0, d2), Op6::FireAll, Op6::FireAll, Op6::Update(0, d3), Op6::FireAll];
+        ops.splice(0..0, prefix);
     }
     // drawn last of all: in one history in three the conflict-resolution strategy is chosen (again) at one or two
     // points of the history -- before the first step, between any two steps
@@ -560,6 +579,8 @@ pub fn run(s: &mut Src, ctx: &mut Ctx) -> Verdict {
     let mut clock: u64 = 1;
     let mut last_fire_all: u64 = 0;
     let (mut nt_stale, mut nt_action_modifies, mut nt_compete) = (false, false, false);
+    // fire_all calls that are still draining the queue a burst left (see Op6::Burst): nothing is owed in them
+    let mut drain_calls = 0u32;
     let mut pending_dirty: BTreeSet<usize> = BTreeSet::new(); // facts updated/retracted since last fire_all that matched some rule before
     for (oi, op) in c.ops.iter().enumerate() {
         clock += 1;
@@ -588,6 +609,26 @@ pub fn run(s: &mut Src, ctx: &mut Ctx) -> Verdict {
                         }
                     } else if r.is_ok() {
                         return Verdict::fail("update-retracted-accepted", format!("op {}: update of a retracted handle returned Ok", oi));
+                    }
+                }
+            }
+            Op6::Burst(i, d) => {
+                if let Some(f) = facts.get_mut(*i) {
+                    if f.live {
+                        let matched_before = !f.data_known || c.rules.iter().any(|r| r.ty == f.ty && !both_readings(r, &data_map(&f.data)).0);
+                        for k in 0..1001 {
+                            if engine.update(f.handle, data_to_typed(d)).is_err() {
+                                return Verdict::fail("update-live-rejected", format!("op {}: update {} of a burst on a live handle returned Err", oi, k));
+                            }
+                        }
+                        f.data = d.clone();
+                        f.data_known = true;
+                        f.written_at = clock;
+                        if matched_before {
+                            pending_dirty.insert(*i);
+                        }
+                        drain_calls = 2;
+                        ctx.label("burst-of-1001-updates");
                     }
                 }
             }
@@ -733,6 +774,12 @@ pub fn run(s: &mut Src, ctx: &mut Ctx) -> Verdict {
                     if !undefined {
                         let mut got = fired.clone();
                         got.sort();
+                        if drain_calls > 0 {
+                            // owed firings that do not happen now are not owed later either (their facts are no longer
+                            // "written since the previous fire_all"): they move to `may`
+                            may.append(&mut must);
+                            ctx.label("fire_all-draining-after-a-burst");
+                        }
                         for m in &must {
                             let n = got.iter().filter(|g| *g == m).count();
                             if n != 1 {
@@ -765,6 +812,7 @@ pub fn run(s: &mut Src, ctx: &mut Ctx) -> Verdict {
                 }
                 last_fire_all = clock;
                 first_fire_done = true;
+                drain_calls = drain_calls.saturating_sub(1);
                 {
                     let live_n = facts.iter().filter(|f| f.live).count();
                     for f in &recs {
